@@ -1235,12 +1235,34 @@ class FnRewriter:
                     while pk >= 0 and toks[pk].kind in ('ws', 'comment'):
                         pk -= 1
                     callee = None
+                    later_arg = False
+                    if pk >= 0 and toks[pk].kind == 'punct' and toks[pk].text == ',':
+                        # a later argument (`m.update_origin(v4, |m| ..)`): walk back to the call's `(`
+                        depth = 0
+                        qk = pk - 1
+                        while qk >= 0:
+                            tq = toks[qk]
+                            if tq.kind == 'punct' and tq.text in rustlex.CLOSE:
+                                depth += 1
+                            elif tq.kind == 'punct' and tq.text in rustlex.OPEN:
+                                if depth == 0:
+                                    break
+                                depth -= 1
+                            elif tq.kind == 'punct' and tq.text in ';{}' and depth == 0:
+                                qk = -1
+                                break
+                            qk -= 1
+                        if qk >= 0 and toks[qk].text == '(':
+                            pk = qk
+                            later_arg = True
                     if pk >= 0 and toks[pk].kind == 'punct' and toks[pk].text == '(':
                         pk -= 1
                         while pk >= 0 and toks[pk].kind in ('ws', 'comment'):
                             pk -= 1
                         if pk >= 0 and toks[pk].kind == 'ident':
-                            callee = toks[pk].text
+                            # later-argument closures are named `METHOD:n` (own ordinal space, so the
+                            # ordinals of first-argument closures of the same METHOD do not move)
+                            callee = toks[pk].text + (':n' if later_arg else '')
                     if callee is not None:
                         cnt = self.__dict__.setdefault('_closure_by_callee', {})
                         cnt[callee] = cnt.get(callee, 0) + 1
